@@ -425,6 +425,7 @@ SInit(st, a, R) ==
     [] st \in {"ghes", "ghesv2"} -> Ghes_Init(a) [] st = "notif" -> Notif_Init(a)
     [] st = "qos" -> Qos_Init(a) [] st = "ecam" -> Ecam_Init(a) [] st = "xent" -> Xent_Init(a)
     [] st = "gas" -> [g |-> a] [] st = "gedata" -> GeData_Init(a)
+    [] st = "gas_pci" -> a [] st = "gaddr" -> a
 
 SCall(st, s, c, R) ==
   CASE st = "gicc" -> Gicc_Call(s, c) [] st = "gicmsi" -> Gicmsi_Call(s, c)
@@ -454,6 +455,15 @@ SLay(st, s) ==
     [] st = "ghes" -> Ghes_Lay(s) [] st = "ghesv2" -> GhesV2_Lay(s) [] st = "notif" -> Notif_Lay(s)
     [] st = "qos" -> Qos_Lay(s) [] st = "ecam" -> Ecam_Lay(s) [] st = "xent" -> Xent_Lay(s)
     [] st = "gedata" -> GeData_Lay(s)
+    \* GAS for PCI configuration space (ACPI Table 5.1): address = reserved word, device, function, register offset
+    \* (highest to lowest word), i.e. little-endian: register(2) function(2) device(2) 0(2)
+    [] st = "gas_pci" -> <<N("space", <<2>>), N("width", s.width), N("offset", <<0>>), N("access", <<AccessCode[s.access]>>),
+                           N("register", s.register), N("function", W(s.function, 2)), N("device", W(s.device, 2)), K(Z(2))>>
+    \* typed register addresses of the generic table module: system I/O (1) or memory (0), bit width = 8 * size,
+    \* access size code 1/2/3/4 for 1/2/4/8 bytes
+    [] st = "gaddr" -> <<N("space", <<IF s.kind = "io" THEN 1 ELSE 0>>), N("width", <<8 * s.size>>), N("offset", <<0>>),
+                         N("access", <<CASE s.size = 1 -> 1 [] s.size = 2 -> 2 [] s.size = 4 -> 3 [] s.size = 8 -> 4>>),
+                         N("addr", W(s.addr, 8))>>
     [] st = "gas" -> <<N("space", <<SpaceCode[s.g.space]>>), N("width", s.g.width), N("offset", s.g.offset),
                        N("access", <<AccessCode[s.g.access]>>), N("addr", s.g.addr)>>
 
